@@ -27,7 +27,7 @@ def run(name):
         return name, verdict, ",".join("%s:%s" % kv for kv in res.items())
     finally:
         subprocess.run("git -C /repo worktree remove --force %s" % W, shell=True)
-out = {}
+out = json.load(open("/verif/seeded/RESULTS.json")) if os.path.exists("/verif/seeded/RESULTS.json") else {}
 with ThreadPoolExecutor(3) as ex:
     for name, verdict, detail in ex.map(run, names):
         exp = "MISSED (by design)" if "assessment" in json.load(open("/verif/seeded/%s/meta.json" % name)) else "CAUGHT"
